@@ -115,9 +115,10 @@ def run(ctx):
         Ob('middlewares_resources', 'ob_mws2', '', packed=[('a', 7), ('b', 7), ('prefix_i', 5), ('res0', 3), ('res1', 3)],
            cells=[('a%d_b%d' % (a, b), [{'a': a, 'b': b}]) for a in range(7) for b in range(7)], timeout=tmo, confirm='confirm_mws2',
            desc='depth 2: outer x inner middleware lists (2 unique types shared or not, 1 non-unique) x which level defines resources r / s x prefix'),
-        Ob('depth3', 'ob_depth3', '', packed=[('a', 7), ('b', 7), ('c', 7), ('p1', 5), ('p2', 5), ('inh', 4), ('reb', 4), ('res_sel', 6)] if T else
+        Ob('depth3', 'ob_depth3', '', packed=[('a', 4), ('b', 4), ('c', 4), ('p1', 3), ('p2', 3), ('inh', 4), ('reb', 4), ('res_sel', 6)] if T else
            [('a', 3), ('b', 3), ('c', 3), ('p1', 2), ('p2', 2), ('inh', 4), ('reb', 4), ('res_sel', 3)],
-           cells=[('a%d_b%d_c%d' % (a, b, c), [{'a': a, 'b': b, 'c': c}]) for a in range(7 if T else 3) for b in range(7 if T else 3) for c in range(7 if T else 3)],
+           cells=([('a%d_b%d_c%d_p%d_%d' % (a, b, c, p1, p2), [{'a': a, 'b': b, 'c': c, 'p1': p1, 'p2': p2}]) for a in range(4) for b in range(4) for c in range(4) for p1 in range(3) for p2 in range(3)] if T else
+                  [('a%d_b%d_c%d' % (a, b, c), [{'a': a, 'b': b, 'c': c}]) for a in range(3) for b in range(3) for c in range(3)]),
            timeout=tmo, confirm='confirm_depth3',
            desc='depth 3: middleware lists of the three levels x prefixes x inherit/rebind flags of both embedding steps x 6 resource placements (a name defined only by two inner levels is excluded)'),
     ]
